@@ -48,6 +48,10 @@ func (r *Reflog) load(rootGoitPath string, head *Head, refs *Refs) error {
 	defer f.Close()
 
 	scanner := bufio.NewScanner(f)
+	// a journal line carries the first line of a commit message, which may be longer than the scanner's default limit
+	if info, err := f.Stat(); err == nil {
+		scanner.Buffer(nil, int(info.Size())+1)
+	}
 	for scanner.Scan() {
 		record := &LogRecord{
 			references: make([]string, 0),
